@@ -10,14 +10,14 @@
 -/
 import Wormhole.Inv.SweepDb
 import Wormhole.Inv.WsLemmas
-import Wormhole.Inv.Main
+import Wormhole.Reach
 
 namespace Wormhole
 open Generated
 
-theorem expirationTicks_pos : 0 < expirationTicks := by decide
-theorem periodTicks_pos : 0 < periodTicks := by decide
-theorem periodTicks_lt_expirationTicks : periodTicks < expirationTicks := by decide
+theorem sweep_expirationTicks_pos : 0 < expirationTicks := by decide
+theorem sweep_periodTicks_pos : 0 < periodTicks := by decide
+theorem sweep_period_lt_expiration : periodTicks < expirationTicks := by decide
 
 namespace Sys
 
@@ -59,7 +59,7 @@ theorem storeNameplateUsage_fixed (s : Sys) (app sides t p) :
 
 /-! ### the two loops -/
 
-theorem pruneNameplates_db {app now} (l : List Nameplate) :
+theorem sw_pruneNameplates_db {app now} (l : List Nameplate) :
     ∀ {s s1 : Sys}, s.pruneNameplates app now l = (s1, true) →
       s1.db = s.db.dropNps (l.map (·.id)) ∧ Fixed s s1 := by
   induction l with
@@ -90,7 +90,7 @@ theorem pruneNameplates_db {app now} (l : List Nameplate) :
       simp only [modDb_db, List.map_cons]
       exact Chan.dropNps_cons _ _ _
 
-theorem pruneMailboxes_db {app now} (l : List MailboxRow) :
+theorem sw_pruneMailboxes_db {app now} (l : List MailboxRow) :
     ∀ (s : Sys), (s.pruneMailboxes app now l).db = s.db.dropMbs (l.map (·.id)) ∧
       Fixed s (s.pruneMailboxes app now l) := by
   induction l with
@@ -112,7 +112,7 @@ theorem pruneMailboxes_db {app now} (l : List MailboxRow) :
       simp only [modDb_db, List.map_cons]
       exact Chan.dropMbs_cons _ _ _
 
-theorem touchListened_db (s : Sys) (app : String) (now : Time) :
+theorem sw_touchListened_db (s : Sys) (app : String) (now : Time) :
     (s.touchListened app now).db = s.db.stampApp s.listened app now := by
   simp only [touchListened, modDb_db, Chan.stampApp, listened, decide_eq_true_eq]
 
@@ -127,15 +127,15 @@ theorem prune_db {s s1 : Sys} {app now old} (h : s.prune app now old = (s1, true
   split at h
   · simp at h
   · rename_i s2 e
-    obtain ⟨hd2, hf2⟩ := pruneNameplates_db _ e
-    obtain ⟨hd3, hf3⟩ := pruneMailboxes_db (app := app) (now := now)
+    obtain ⟨hd2, hf2⟩ := sw_pruneNameplates_db _ e
+    obtain ⟨hd3, hf3⟩ := sw_pruneMailboxes_db (app := app) (now := now)
       ((((s.touchListened app now).commit).db.mailboxesOfApp app).filter (fun r => ¬ r.updated > old)) s2
     have hf0 : Fixed s ((s.touchListened app now).commit) := (Fixed.modDb _ _).trans (Fixed.commit _)
     have hdb : (s2.pruneMailboxes app now
         ((((s.touchListened app now).commit).db.mailboxesOfApp app).filter (fun r => ¬ r.updated > old))).db =
         s.db.pruneApp s.listened app now old := by
       rw [hd3, hd2]
-      simp only [commit_db, touchListened_db]
+      simp only [commit_db, sw_touchListened_db]
       rfl
     have hfx := hf0.trans (hf2.trans hf3)
     dsimp only at h
@@ -202,7 +202,7 @@ theorem expire_db {s : Sys} (h : s.db.CInv) (now : Time) :
     Fixed s (s.expire now false) ∧
     ∃ s1, (s.emit (.fired now (now - expirationTicks))).pruneApps now (now - expirationTicks) s.allApps
       = (s1, true) ∧ s.expire now false = s1.dumpStats now := by
-  have hlt : now - expirationTicks < now := Int.sub_lt_self now expirationTicks_pos
+  have hlt : now - expirationTicks < now := Int.sub_lt_self now sweep_expirationTicks_pos
   generalize hp : (s.emit (.fired now (now - expirationTicks))).pruneApps now (now - expirationTicks) s.allApps = p
   obtain ⟨s1, b⟩ := p
   obtain ⟨_, hk⟩ := pruneApps_spec _ hp
@@ -234,13 +234,11 @@ theorem expire_fault (s : Sys) (now : Time) :
 /-! ### the invariant of sweeping -/
 
 /-- what the sweep needs and keeps: commit-point invariant of the database, consistent
-    connection records, nothing uncommitted (three of the fields of `GSys.GInv`) -/
+    connection records, nothing uncommitted (three of the fields of `GSys.GInv`, see Inv/SweepGInv.lean) -/
 structure SwInv (s : Sys) : Prop where
   cinv : s.db.CInv
   conn : s.ConnInv
   synced : s.Synced
-
-theorem _root_.Wormhole.GSys.GInv.swInv {g : GSys} (h : g.GInv) : g.sys.SwInv := ⟨h.cinv, h.conn, h.synced⟩
 
 theorem step_sweep (s : Sys) (now : Time) (fault : Bool) :
     s.step (.sweep now fault) = ({ s with out := [], snaps := [] } : Sys).expire now fault := rfl
@@ -342,37 +340,5 @@ theorem step_sweep_out {s : Sys} (h : s.db.CInv) (now : Time) :
   exact ⟨l, by simpa using hl, hc⟩
 
 end Sys
-
-/-! ### the global invariant is preserved by well-formed sweeps -/
-
-theorem GSys.GInv.step_sweep {g : GSys} (h : g.GInv) {now : Time} {fault : Bool}
-    (hw : g.WFOp (.sweep now fault)) : (g.step (.sweep now fault)).GInv := by
-  have hsw := h.swInv.step_sweep now fault
-  have hmono : g.clock ≤ now := hw.mono now rfl
-  have hused : (g.step (.sweep now fault)).used = g.used := by simp [GSys.step, Op.mailboxIds]
-  have hclock : (g.step (.sweep now fault)).clock = now := rfl
-  have hsys : (g.step (.sweep now fault)).sys = g.sys.step (.sweep now fault) := rfl
-  cases fault with
-  | true =>
-    obtain ⟨hd, hf⟩ := Sys.step_sweep_fault g.sys now
-    refine ⟨hsw.cinv, hsw.conn, hsw.synced, ?_, ?_, ?_⟩
-    · rw [hsys, hd, hused]; exact h.used
-    · rw [hsys, hf.conns, hused]; exact h.usedConn
-    · rw [hsys, hd, hclock]; intro m hm; exact Int.le_trans (h.clockMb m hm) hmono
-  | false =>
-    obtain ⟨hd, hf⟩ := Sys.step_sweep_spec h.cinv now
-    refine ⟨hsw.cinv, hsw.conn, hsw.synced, ?_, ?_, ?_⟩
-    · rw [hsys, hd, hused]
-      intro m' hm'
-      obtain ⟨m, hm, _, rfl⟩ := Chan.mem_sweepP_mailboxes.1 hm'
-      simpa using h.used m hm
-    · rw [hsys, hf.conns, hused]; exact h.usedConn
-    · rw [hsys, hd, hclock]
-      intro m' hm'
-      obtain ⟨m, hm, _, rfl⟩ := Chan.mem_sweepP_mailboxes.1 hm'
-      unfold Chan.stamp
-      split
-      · exact Int.le_refl _
-      · exact Int.le_trans (h.clockMb m hm) hmono
 
 end Wormhole
